@@ -9,7 +9,7 @@ import (
 )
 
 func init() {
-	register(&PropCheck{ID: "C13", AnchorsInlined: true, Pkgs: []string{"./service", "./netio", "./stats"}, Run: runC13})
+	register(&PropCheck{ID: "C13", AnchorsInlined: true, Pkgs: []string{"./service", "./netio", "./stats", "./httpproxy", "./socks5"}, Run: runC13})
 }
 
 func runC13(p *Prog, r *Report) {
@@ -21,6 +21,12 @@ func runC13(p *Prog, r *Report) {
 	c13R3(p, r)
 	c13R4(p, r)
 	c13R5(p, r)
+	// R6: the connections the relay copies between deliver what their handshake read ahead
+	// (shared analysis with C07-R4: the client-side wrapper is what BidirectionalCopy reads from)
+	r.Rule("C13-R6", "no relayed byte is skipped by a connection wrapper: a wrapper that pairs a connection with the bufio.Reader of its handshake reads the inner connection directly (Read, WriteTo — also through a type assertion) only when the reader has nothing buffered")
+	nw := wrapperInnerReads(p, r, "C13-R6")
+	r.Count("wrapper_inner_reads_C13", nw)
+	r.Floor("C13-R6", 1)
 }
 
 func handleConnCtx(p *Prog) *FuncCtx { return p.Func("service", "TCPRelay", "handleConn") }
